@@ -520,6 +520,7 @@ func runLocalSync(t *testing.T, tp *simrt.Tape, prop string) hx.Result {
 		_, mustFail := expected(sel)
 		return mustFail
 	}
+	sigSuffix := "" // narrows the signatures of checkConverged for a recorded root cause
 	checkConverged := func(sel []int, ctx string) {
 		idx, problems := lsReadIndex(w.indexDir)
 		if len(problems) > 0 {
@@ -557,7 +558,7 @@ func runLocalSync(t *testing.T, tp *simrt.Tape, prop string) hx.Result {
 			}
 			sort.Strings(probs)
 			if len(probs) > 0 {
-				report("C34", "indexed-repository-not-up-to-date", fmt.Sprintf("%s: repository %q: %v", ctx, name, probs))
+				report("C34", "indexed-repository-not-up-to-date"+sigSuffix, fmt.Sprintf("%s: repository %q: %v", ctx, name, probs))
 			}
 			src := e.source
 			if filepath.Base(src) == ".git" {
@@ -683,7 +684,19 @@ func runLocalSync(t *testing.T, tp *simrt.Tape, prop string) hx.Result {
 				if rerr != nil {
 					report("C34", "sync-does-not-recover-after-interrupted-run", fmt.Sprintf("sync -f after an interrupted run (%s) fails: %v", fault, rerr))
 				} else {
+					// One recorded root cause gets its own, narrow signature: the interrupted run
+					// was KILLED after it had renamed a first shard (…00000.zoekt) into place and
+					// before it finished; IndexState reads that shard only, so the recovery run
+					// reports "Up to date" (the C12 install window seen through the skip decision).
+					if plan.CrashAt > 0 && !completed {
+						for _, o := range fops {
+							if o.Mut && o.Name == "rename" && o.K < plan.CrashAt && strings.HasSuffix(o.Path, ".00000.zoekt") {
+								sigSuffix = "|after-kill-following-first-shard-install"
+							}
+						}
+					}
 					checkConverged(sel, fctx+" after an interrupted run ("+fault+")")
+					sigSuffix = ""
 				}
 			}
 		}
